@@ -388,15 +388,21 @@ func (s *transactionStore) Watch(ctx context.Context, ch chan<- configapi.Transa
 		for {
 			select {
 			case event := <-eventCh:
-				ch <- event
+				// Do not block on a consumer that has gone away: that would stall the delivery of events
+				// to every other watcher of the store.
+				select {
+				case ch <- event:
+					continue
+				case <-ctx.Done():
+				}
 			case <-ctx.Done():
-				close(ch)
-				go func() {
-					for range eventCh {
-					}
-				}()
-				return
 			}
+			close(ch)
+			go func() {
+				for range eventCh {
+				}
+			}()
+			return
 		}
 	}()
 	return nil
